@@ -195,18 +195,21 @@ def c18_bar(pi: int, o1: int, o2: int, vel: int, ch: int, bi: int) -> bool:
 def c18_track(pi: int, o1: int, o2: int, vel: int, ch: int, bi: int) -> bool:
     bpm = pick(BPMS, bi)
     x, y = _mk(pi, o1, o2, vel, ch)
-    e1 = _entries("chord_rest", x, y) + [(4, [y], None)]
-    e2 = _entries("tempo_change", x, y)
+    e1 = _entries("tempo_change", x, y)
+    e2 = _entries("chord_rest", x, y) + [(4, [y], None)]
+    e3 = [(4, [x], None), (4, [y], 45), (2, None, None)]
     t = Track()
     t.add_bar(_mk_bar(e1))
     t.add_bar(_mk_bar(e2))
+    t.add_bar(_mk_bar(e3))
     s = Rec()
     o = Obs()
     s.attach(o)
     r = s.play_Track(t, 2, bpm)
     ex1, b1 = _exp_bar(e1, bpm)
     ex2, b2 = _exp_bar(e2, b1)
-    return r == {"bpm": b2} and _same_events(s.ev, ex1 + ex2) and _same_events(o.ev, ex1 + ex2) and _balanced(s.ev)
+    ex3, b3 = _exp_bar(e3, b2)
+    return r == {"bpm": b3} and _same_events(s.ev, ex1 + ex2 + ex3) and _same_events(o.ev, ex1 + ex2 + ex3) and _balanced(s.ev)
 
 
 def _exp_parallel(bars_entries, bpm):
